@@ -934,6 +934,10 @@ class ServerTls(Server):
                                  cafilepath=self.cafilepath,
                                 )
 
+            if ca in self.cxes:  # stale not yet handshaked connection from same peer
+                self.cxes[ca].shutdown()
+            if ca in self.ixes:  # stale connection from same peer
+                self.shutdownIx(ca)
             self.cxes[ca] = incomer
 
     def serviceCxes(self):
